@@ -46,7 +46,7 @@ fn variants(_plan: &str, _t: Tier) -> Vec<&'static str> {
     vec!["", "Immortal", "Los", "NonMoving"]
 }
 
-fn boot(plan: &str, _t: Tier) -> BootCfg {
+fn boot(plan: &str, _v: &str, _t: Tier) -> BootCfg {
     let mut c = BootCfg::new(plan);
     if plan == "NoGC" {
         // nothing is ever reclaimed: the heap must hold everything all programs allocate
